@@ -166,3 +166,41 @@ func VH_C03_cut() {
 	last := m[len(m)-1]
 	vAssert(last != ' ' && last != '\t' && last != '\n' && last != '\r', "Matched-ends-with-non-space")
 }
+
+// broken-off statements after a valid program: statement rules emit code
+// while they are parsed, and only the recorded error keeps a run whose
+// statement breaks off from executing that code
+var vC03StmtHeads = []string{"5", "x = 5; x", "2d6kh1", "[1, 2]"}
+var vC03StmtSeps = []string{"\n", "; ", ";\n", " ;"}
+var vC03StmtTails = []string{
+	"if 1 { a = 2", "if 1 { a = 2 } else { a = 3", "while 1 { a = 2", "func fn1() { a = 2", "if 1 { a = 2 } else if", "while a < 3 { a = a + 1; break",
+	"if", "while", "func", "func fn1(", "if 1 { return 2", "&c = ", "a = ", "a = 2; if 1 { b = 3", "`{% a = 2 ", "^st力量", "if 1 {", "break", "return",
+}
+
+func init() {
+	vHarnesses["VH_C03_stmt"] = VH_C03_stmt
+}
+
+//vh:prop=C03 tiers=quick,thorough sigkeys=head,sep,tail overrides=formatFriendlyError budget_s=900 bounds="4 valid programs x 4 statement separators x 19 broken-off statements (if / else / else-if / while / func / return / break / computed and plain assignment / template block / st command cut at various points): the run either fails as a whole or its value, process text and variables are those of Matched evaluated alone (checked as in VH_C03_tail)"
+func VH_C03_stmt() {
+	h := vC03StmtHeads[vChoice("head", len(vC03StmtHeads))]
+	sp := vC03StmtSeps[vChoice("sep", len(vC03StmtSeps))]
+	t := vC03StmtTails[vChoice("tail", len(vC03StmtTails))]
+	vC03Check(h + sp + t)
+}
+
+// line-break spellings inside and after the program: the text handed back
+// is the caller's text, byte for byte
+var vC03BreakHeads = []string{"2d1", "x = 1; x", "'a\r\nb'", "`t\r\n{1}`", "1 +\r\n 2", "[1,\r\n 2]", "x = 1\r\ny = 2\r\nx + y", "// note\r\n5"}
+var vC03BreakTails = []string{"", "\r\n", " reason text\r\nsecond line", "\r", "\n\r", "\r\n\r\n", "\t\r\n x", " \r \n", "\r\n)"}
+
+func init() {
+	vHarnesses["VH_C03_breaks"] = VH_C03_breaks
+}
+
+//vh:prop=C03 tiers=quick,thorough sigkeys=head,tail overrides=formatFriendlyError budget_s=600 bounds="8 programs containing CR LF / CR / LF in strings, templates, between operands, between statements and after comments x 9 tails made of CR, LF, blanks and further text: Matched followed by RestInput is exactly the input, and the result is that of Matched alone (as in VH_C03_tail)"
+func VH_C03_breaks() {
+	h := vC03BreakHeads[vChoice("head", len(vC03BreakHeads))]
+	t := vC03BreakTails[vChoice("tail", len(vC03BreakTails))]
+	vC03Check(h + t)
+}
